@@ -55,6 +55,13 @@ def c14_scenarios(tier, seed):
                 "default": [op("go", n=n, val="ctx.miss" if i % 2 else "", body=[op("ctx", text="g"), op("helper")]), op("ctx", text="main"), draw(g("Bool"), "b")]}
         out.append(scenario("c14-after-skipping-cleanup-%d" % i, prop, dict(base, seed=rng.randrange(1, 1 << 64), checks=5),
                             tag={"methods": "ctx after a skipping cleanup", "goroutines": n}))
+    # a Custom generator function starts workers that fail (non-fatally) only after the function has returned; its cleanup joins them:
+    # a failure signalled from any goroutine on the T the function was given falsifies the test case
+    for i in range(3 if tier == "quick" else 20):
+        cbody = [op("goasync", n=rng.choice([1, 2, 3]), body=[op("sleep", ms=15), op("errorf", text="worker")]), op("cleanup", body=[op("join")]), draw(g("Bool"), "cb")]
+        prop = {"body": [draw(g("Custom", elem=g("Int8"), body=cbody, fresh=True), "c"), draw(g("Bool"), "b")]}
+        out.append(scenario("c14-custom-workers-%d" % i, prop, dict(base, seed=rng.randrange(1, 1 << 64), checks=3),
+                            tag={"methods": "errorf from workers of a Custom function", "goroutines": 3}))
     # goroutines that are still registering cleanups while the engine already runs the test case's cleanups
     for i in range(reps):
         prop = {"body": [op("cleanup", body=[op("join")]), op("goasync", n=rng.choice([4, 8]), ms=rng.choice([50, 150]), body=[op("cleanup", body=[])]),
